@@ -357,6 +357,9 @@ func (_this *Context) MarkObject(dataType DataType) {
 	if newLocalReferenceCount > _this.config.Rules.MaxLocalReferenceCount {
 		panic(fmt.Errorf("too many marked objects (%d). Max is %d", newLocalReferenceCount, _this.config.Rules.MaxLocalReferenceCount))
 	}
+	if newLocalReferenceCount > _this.config.Rules.MaxMarkerCount {
+		panic(fmt.Errorf("too many markers (%d). Max is %d", newLocalReferenceCount, _this.config.Rules.MaxMarkerCount))
+	}
 
 	id := _this.markerIDs[len(_this.markerIDs)-1]
 	_this.markerIDs = _this.markerIDs[:len(_this.markerIDs)-1]
